@@ -338,7 +338,7 @@ def run(ctx):
         return _finish_mc(ctx, mc_future, pool, T)
 
     # ---- seeded random larger graphs (4..8 ids), same Judge
-    nrand = 2000 if q else 40000
+    nrand = 2000 if q else 30000
     rrecs = execute_random(ctx, nrand)
     rcases = [r["case"] for r in rrecs]
     for c in rcases:
@@ -355,7 +355,7 @@ def run(ctx):
     # ---- C -> S
     judge.first = True
     judge.divs = []
-    trace_stage(ctx, cases, 600 if q else 12000, judge)
+    trace_stage(ctx, cases, 600 if q else 8000, judge)
 
     # ---- design level
     T("traces (%d validated)" % ctx.traces)
